@@ -247,6 +247,13 @@ def run(tier, seed, replay=None):
                     pairs.append((d2[0], d2[1], kind))
                 else:
                     pairs.append((doc, d2, kind))
+    if not replay:
+        base = {"k": "Obj", "name": "Base", "base": None, "doc": None, "kw": {}, "props": {"name": {"e": {"k": "String", "kw": {}}, "required": False, "source": None}}}
+        sub = {"k": "Obj", "name": "Strict", "base": "Base", "doc": None, "kw": {"additionalProperties": False, "minProperties": 1, "required": ["name"]}, "props": {}}
+        flat = {"k": "Obj", "name": "Strict", "base": None, "doc": None, "kw": {"additionalProperties": False, "minProperties": 1, "required": ["name"]},
+                "props": {"name": {"e": {"k": "String", "kw": {}}, "required": False, "source": None}}}
+        pairs.insert(0, ({"classes": {"Strict": flat}, "order": ["Strict"], "root": {"k": "Ref", "name": "Strict"}},
+                         {"classes": {"Base": base, "Strict": sub}, "order": ["Base", "Strict"], "root": {"k": "Ref", "name": "Strict"}}, "copy:keyword-only subclass vs flat class (equal expected)"))
     cases, metas = [], []
     for da, db, kind in pairs:
         try:
@@ -294,7 +301,10 @@ def run(tier, seed, replay=None):
                 continue
         if ab:
             stats["equal_pairs"] += 1
-            vals = dslgen.gen_values(rng, da, 4) + dslgen.gen_values(rng, db, 3)
+            # on the b side every class is first used parents-before-children (on the a side in whatever order the values reach them)
+            for c in sorted(cb.values(), key=lambda c: len(c.__mro__)):
+                verdict(c, {})
+            vals = dslgen.gen_values(rng, da, 4) + dslgen.gen_values(rng, db, 3) + [{}, {"name": "x", "zz_extra": 1}, []]
             for v in vals:
                 stats["values_compared"] += 1
                 va, vb = verdict(ea, v), verdict(eb, v)
@@ -314,6 +324,35 @@ def run(tier, seed, replay=None):
         else:
             stats["unequal_pairs"] += 1
         res.sample({"a": repr(ea)[:200], "b": repr(eb)[:200], "mutation": kind, "equal": ab}, limit=5)
+    # ---- "sharing one class between equal object schemas": the parser shares a class between two same-titled schemas of one document
+    #      exactly when the classes obtained by parsing each on its own are == ------------------------------------------------------------
+    if not replay:
+        from statham.schema.parser import parse_element
+        item = lambda **kw: dict({"type": "object", "title": "Item", "properties": {"name": {"type": "string"}}}, **kw)  # noqa
+        SAME_TITLE = [(item(maxProperties=1), item()), (item(), item(maxProperties=1)), (item(), item()), (item(minProperties=0), item()),
+                      (item(required=["name"]), item()), (item(description="d"), item()), (item(default={}), item()),
+                      (item(const={"on": True}), item(const={"on": 1})), (item(enum=[{"name": "a"}]), item(enum=[{"name": "a"}])),
+                      (item(additionalProperties=False, minProperties=1), item(additionalProperties=False)),
+                      ({"type": "object", "title": "Item", "properties": {"name": {"type": "string"}, "n": {"type": "integer"}}}, item()),
+                      ({"type": "object", "title": "Item", "properties": {"n": {"type": "integer"}, "name": {"type": "string"}}},
+                       {"type": "object", "title": "Item", "properties": {"name": {"type": "string"}, "n": {"type": "integer"}}})]
+        for s1, s2 in SAME_TITLE:
+            for wrap in ("tuple", "properties"):
+                docj = {"type": "array", "items": [copy.deepcopy(s1), copy.deepcopy(s2)]} if wrap == "tuple" else \
+                    {"type": "object", "title": "Holder", "properties": {"first": copy.deepcopy(s1), "second": copy.deepcopy(s2)}}
+                try:
+                    e = parse_element(copy.deepcopy(docj))
+                    c1, c2 = (e.items[0], e.items[1]) if wrap == "tuple" else (e.properties["first"].element, e.properties["second"].element)
+                    alone1, alone2 = parse_element(copy.deepcopy(s1)), parse_element(copy.deepcopy(s2))
+                except BaseException:  # noqa
+                    continue
+                stats["same_title_pairs"] = stats.get("same_title_pairs", 0) + 1
+                eq = (alone1 == alone2) is True
+                if (c1 is c2) != eq or (c2 == alone2) is not True:
+                    res.violation({"property": "C17", "kind": "oracle", "schema": docj,
+                                   "what": "two same-titled object schemas whose classes, parsed alone, are %s: in one document they %s one class; the second "
+                                           "position %s the class of its own schema" % ("equal" if eq else "NOT equal", "share" if c1 is c2 else "do not share",
+                                                                                        "equals" if (c2 == alone2) is True else "does not equal")})
     codes, err = sc.eval_codes(["Elem", "Equality", "RunEq"], "run_eq_case", cases, tag="c17", shard=120)
     res.corr_error = err
     # code 9 = an equal pair to which the congruence theorem C17_equal_same_verdict applies (EqFrag.goodb on both, proved sound)
